@@ -1,6 +1,10 @@
 /- Helper lemmas for C06Reach: the table after an event is the sweep `inherit` of an explicit table. -/
 import Pk.Proofs.MgrTagsStep
 import Pk.Proofs.MgrSettleFrame
+import Pk.Proofs.MgrTruthDrop
+import Pk.Proofs.MgrTruthInherit
+import Pk.Proofs.MgrTruthEdit
+import Pk.Proofs.MgrTruthMasks
 namespace Pk.Proofs.MgrTruth
 open Pk.Mgr Pk.Proofs.MgrTags
 
@@ -440,5 +444,295 @@ theorem tagDone_dead (s : St) (name : String) (result : List Nat) (st : Started)
     · rfl
   rw [hP] at hS
   exact hS
+
+/-! ## the table after an `updConv` / `delTag` that dropped converter output -/
+
+section dropped
+open Pk.Proofs.MgrTermination
+
+theorem good_transfer' {L L' : List (String × Tag)} {R : List String} (h : GoodOrder L R)
+    (h1 : ∀ n ∈ R, ∀ t, (n, t) ∈ L → ∃ t', (n, t') ∈ L' ∧ t'.refs = t.refs) : GoodOrder L' R := by
+  induction h with
+  | nil => exact GoodOrder.nil
+  | cons n t R hm hn hr _ ih =>
+    obtain ⟨t', hm', hrefs⟩ := h1 n List.mem_cons_self t hm
+    exact GoodOrder.cons n t' R hm' hn (hrefs ▸ hr) (ih (fun x hx => h1 x (List.mem_cons_of_mem _ hx)))
+
+theorem refs_of_attrs {t t' : Tag} (h : Attrs t' = Attrs t) : t'.refs = t.refs := by
+  simp only [Attrs, Prod.mk.injEq] at h
+  unfold Tag.refs; rw [h.1, h.2.1]
+
+theorem akeep_get {n : String} {L L' : List (String × Tag)} {t : Tag} (h : AKeep n L L')
+    (hg : sget L n = some t) : ∃ t', sget L' n = some t' ∧ Attrs t' = Attrs t := by
+  unfold AKeep at h
+  rw [hg] at h
+  exact Option.map_eq_some_iff.mp h
+
+theorem akeep_get' {n : String} {L L' : List (String × Tag)} {t' : Tag} (h : AKeep n L L')
+    (hg : sget L' n = some t') : ∃ t, sget L n = some t ∧ Attrs t' = Attrs t := by
+  unfold AKeep at h
+  rw [hg] at h
+  obtain ⟨t, h1, h2⟩ := Option.map_eq_some_iff.mp h.symm
+  exact ⟨t, h1, h2.symm⟩
+
+/-- a table with the same keys and the same references has a topological order too (`topo_of_fq`, stated with
+    `AKeep`) -/
+theorem topo_of_akeep {L L' : List (String × Tag)} (hs : Sorted L) (h : ∀ n, AKeep n L L') (ht : Topo L) :
+    Topo L' := by
+  obtain ⟨R, hg, hall⟩ := ht
+  refine ⟨R, good_transfer' hg ?_, ?_⟩
+  · intro n _ t hm
+    obtain ⟨t', h1, h2⟩ := akeep_get (h n) (MgrConv.mem_sget_of_sorted _ hs _ _ hm)
+    exact ⟨t', sget_mem_pair _ _ _ h1, refs_of_attrs h2⟩
+  · intro k hk
+    obtain ⟨t', ht'⟩ := sget_of_mem_keys _ _ hk
+    obtain ⟨t, h1, _⟩ := akeep_get' (h k) ht'
+    exact hall k (sget_mem_keys _ _ _ h1)
+
+/-- closed under the propagation rules, and every payload tag pending for every stream -/
+def DGood (all : Nat) (T : List (String × Tag)) : Prop :=
+  (∀ n t', sget T n = some t' → Closed all T t') ∧
+  (∀ n t', sget T n = some t' → Payload t' → ∀ id, id < all → id ∈ t'.unc)
+
+/-- every entry of `T'` is an entry of `T` up to the fields the propagation rules do not look at -/
+def Sub (T T' : List (String × Tag)) : Prop :=
+  ∀ n t', sget T' n = some t' → ∃ t, sget T n = some t ∧ t'.mainT = t.mainT ∧ t'.subT = t.subT ∧
+    t'.mfeat = t.mfeat ∧ t'.sfeat = t.sfeat ∧ t'.unc = t.unc
+
+theorem Sub.refl (T : List (String × Tag)) : Sub T T := fun _ t' h => ⟨t', h, rfl, rfl, rfl, rfl, rfl⟩
+theorem Sub.trans {A B C : List (String × Tag)} (h1 : Sub A B) (h2 : Sub B C) : Sub A C := by
+  intro n t' h
+  obtain ⟨t, hb, b1, b2, b3, b4, b5⟩ := h2 n t' h
+  obtain ⟨t0, ha, a1, a2, a3, a4, a5⟩ := h1 n t hb
+  exact ⟨t0, ha, b1.trans a1, b2.trans a2, b3.trans a3, b4.trans a4, b5.trans a5⟩
+
+theorem sub_of_ke {T T' : List (String × Tag)} (h : ∀ n, KeepR AE n T T') : Sub T T' := by
+  intro n t' ht'
+  cases hg : sget T n with
+  | none => rw [(h n).2 hg] at ht'; cases ht'
+  | some t =>
+    obtain ⟨t'', h1, _, a2, _, a4, a5, a6, a7, _⟩ := (h n).1 t hg
+    rw [ht'] at h1; cases h1
+    exact ⟨t, rfl, a4, a5, a6, a7, a2⟩
+
+theorem sub_sdel (T : List (String × Tag)) (k : String) : Sub T (sdel T k) := by
+  intro n t' h
+  rw [sget_sdel] at h
+  split at h
+  · cases h
+  · exact ⟨t', h, rfl, rfl, rfl, rfl, rfl⟩
+
+theorem good_sub {all : Nat} {T T' : List (String × Tag)} (hg : DGood all T) (hs : Sub T T') : DGood all T' := by
+  have hU : ∀ r, tagUnc T' r = tagUnc T r ∨ tagUnc T' r = [] := by
+    intro r
+    cases h : sget T' r with
+    | none => right; simp [tagUnc, h]
+    | some t' =>
+      obtain ⟨t, ht, _, _, _, _, hu⟩ := hs r t' h
+      left; simp [tagUnc, h, ht, hu]
+  constructor
+  · intro n t' h
+    obtain ⟨t, ht, m, sb, _, _, hu⟩ := hs n t' h
+    have hc := hg.1 n t ht
+    constructor
+    · intro r hr id hid
+      rw [hu]
+      rcases hU r with e | e
+      · rw [e] at hid; exact hc.1 r (m ▸ hr) id hid
+      · rw [e] at hid; cases hid
+    · rintro ⟨r, hr, hne⟩ id hid
+      rw [hu]
+      rcases hU r with e | e
+      · rw [e] at hne; exact hc.2 ⟨r, sb ▸ hr, hne⟩ id hid
+      · exact absurd e hne
+  · intro n t' h hp id hid
+    obtain ⟨t, ht, _, _, mf, sf, hu⟩ := hs n t' h
+    rw [hu]
+    refine hg.2 n t ht ?_ id hid
+    unfold Payload at hp ⊢
+    rw [← mf, ← sf]; exact hp
+
+theorem inherit_bnd (s : St) (hb : Bounded s.all s.tags) : Bounded s.all (inherit s).tags := by
+  obtain ⟨res, hp, _⟩ := inheritLoop_inv s.all (fun acc => PInv s.all acc)
+    (fun acc nt h => passStep_pinv _ _ _ h) (s.tags.length + 1) s.tags [] ⟨by simp, by simp, hb⟩
+  exact hp.bnd
+
+theorem odF_payload (all : Nat) (t : Tag) (hp : Payload (odF all t)) (id : Nat) (hid : id < all) :
+    id ∈ (odF all t).unc := by
+  unfold odF at hp ⊢
+  split
+  · simpa using hid
+  · rename_i hc
+    rw [if_neg hc] at hp
+    exact absurd (by simpa [Payload] using hp) hc
+
+/-- `outputDropped` on a sorted, bounded table with a topological order -/
+theorem outputDropped_table (Z : St) (choice : Option String) (hs : Sorted Z.tags) (hb : Bounded Z.all Z.tags)
+    (htopo : Topo Z.tags) :
+    Sorted (outputDropped Z choice).tags ∧ Bounded Z.all (outputDropped Z choice).tags ∧
+    (DGood Z.all Z.tags → DGood Z.all (outputDropped Z choice).tags) ∧
+    (Z.tags.any (fun nt => (nt.2.mfeat ||| nt.2.sfeat) &&& fData != 0) = true →
+      DGood Z.all (outputDropped Z choice).tags) := by
+  by_cases hp : Z.tags.any (fun nt => (nt.2.mfeat ||| nt.2.sfeat) &&& fData != 0) = true
+  · rw [outputDropped_tags Z choice hp]
+    generalize hY : ({ Z with tags := Z.tags.map fun p => (p.1, odF Z.all p.2) } : St) = Y
+    have hYt : Y.tags = Z.tags.map fun p => (p.1, odF Z.all p.2) := by rw [← hY]
+    have hYa : Y.all = Z.all := by rw [← hY]
+    have hget : ∀ n, sget Y.tags n = (sget Z.tags n).map (odF Z.all) := by
+      intro n; rw [hYt]; exact sget_map (fun _ t => odF Z.all t) Z.tags n
+    have hYs : Sorted Y.tags := by
+      apply sorted_of_keys_eq _ _ _ hs
+      rw [hYt]; simp [Function.comp_def]
+    have hYb : Bounded Y.all Y.tags := by
+      intro n t' h id hid
+      rw [hget] at h
+      obtain ⟨t, ht, rfl⟩ := Option.map_eq_some_iff.mp h
+      rw [hYa]
+      revert hid
+      unfold odF
+      split
+      · intro hid; simpa using hid
+      · intro hid; exact hb n t ht id hid
+    have hYtopo : Topo Y.tags :=
+      topo_of_akeep hs (fun n => hYt ▸ akeep_map (fun _ t => odF Z.all t) (fun _ t => attrs_odF _ t) n Z.tags) htopo
+    have hok := inheritLoop_ok Y.all Y.tags hYs hYtopo
+    have hgood : DGood Z.all (inherit Y).tags := by
+      rw [← hYa]
+      constructor
+      · intro n t' h; exact inherit_closed_aux Y hYs hYb hok n t' h
+      · intro n t' h hpay id hid
+        have hk := inherit_keepR Y n
+        cases hy : sget Y.tags n with
+        | none => rw [hk.2 hy] at h; cases h
+        | some ty =>
+          obtain ⟨t'', h'', _, _, _, _, a5, a6, _, a8⟩ := hk.1 ty hy
+          rw [h] at h''; cases h''
+          rw [hget] at hy
+          obtain ⟨t, _, rfl⟩ := Option.map_eq_some_iff.mp hy
+          refine a8 id (odF_payload _ t ?_ id (hYa ▸ hid)) hid
+          unfold Payload at hpay ⊢
+          rw [← a5, ← a6]; exact hpay
+    exact ⟨inherit_sorted Y hYs, hYa ▸ inherit_bnd Y hYb, fun _ => hgood, fun _ => hgood⟩
+  · rw [outputDropped_idle Z choice hp]
+    exact ⟨hs, hb, id, fun h => absurd h hp⟩
+
+theorem dcBase_table (X : St) (name c : String) (tX : Tag) (hx : sget X.tags name = some tX)
+    (hs : Sorted X.tags) (hb : Bounded X.all X.tags) (htopo : Topo X.tags) :
+    Sorted (dcBase X name c tX).tags ∧ Bounded X.all (dcBase X name c tX).tags ∧ Topo (dcBase X name c tX).tags ∧
+    Sub X.tags (dcBase X name c tX).tags := by
+  refine ⟨sorted_sins _ _ _ hs, ?_, ?_, ?_⟩
+  · intro n t' h
+    simp only [dcBase, sget_sins] at h
+    split at h
+    · cases h; exact hb name tX hx
+    · exact hb n t' h
+  · exact topo_of_akeep hs (fun n => akeep_sins_attrs hx (t' := dcTag tX c) rfl n) htopo
+  · exact sub_of_ke fun n => keepR_sins_rel AE.refl hx (t' := dcTag tX c)
+      (by exact ⟨rfl, rfl, rfl, rfl, rfl, rfl, rfl, rfl⟩) n
+
+theorem detachConv_table (X : St) (name c : String) (choice : Option String) (tX : Tag)
+    (hx : sget X.tags name = some tX) (hs : Sorted X.tags) (hb : Bounded X.all X.tags) (htopo : Topo X.tags) :
+    Sorted (detachConv X name c choice).tags ∧ Bounded X.all (detachConv X name c choice).tags ∧
+    (DGood X.all X.tags → DGood X.all (detachConv X name c choice).tags) ∧
+    (dcOthers X name c tX = [] → (∃ n t, sget X.tags n = some t ∧ Payload t) →
+      DGood X.all (detachConv X name c choice).tags) := by
+  obtain ⟨b1, b2, b3, b4⟩ := dcBase_table X name c tX hx hs hb htopo
+  rw [detachConv_dc X name c choice tX hx]
+  split
+  · obtain ⟨o1, o2, o3, o4⟩ :=
+      outputDropped_table { dcBase X name c tX with cached := sins c [] X.cached } choice b1 b2 b3
+    exact ⟨o1, o2, fun hg => o3 (good_sub hg b4), fun _ hp => o4 (dcBase_any X name c tX hx hp)⟩
+  · rename_i hne
+    exact ⟨b1, b2, fun hg => good_sub hg b4, fun h0 => absurd (by rw [h0]; rfl) hne⟩
+
+/-- the fold of `detachConv` calls of an `updConv` / `delTag` on a sorted, bounded table with a topological order -/
+theorem detachFold_table (name : String) (choice : Option String) (T0 : List (String × Tag)) (all : Nat)
+    (hs0 : Sorted T0) (htopo : Topo T0)
+    (hname : ∃ t, sget T0 name = some t) (hp : ∃ n t, sget T0 n = some t ∧ Payload t)
+    (L : List String) (X : St) (hall : X.all = all) (hs : Sorted X.tags) (hb : Bounded all X.tags)
+    (hak : ∀ n, AKeep n T0 X.tags) (hsrc : Src name T0 X.tags) :
+    (DGood all X.tags → DGood all (L.foldl (fun s c => detachConv s name c choice) X).tags) ∧
+    ((∃ c, c ∈ L ∧ othersOf T0 name c = []) →
+      DGood all (L.foldl (fun s c => detachConv s name c choice) X).tags) := by
+  induction L generalizing X with
+  | nil => exact ⟨id, fun ⟨c, hc, _⟩ => by cases hc⟩
+  | cons c L ih =>
+    simp only [List.foldl_cons]
+    obtain ⟨t0, ht0⟩ := hname
+    obtain ⟨tX, hx, _⟩ := akeep_get (hak name) ht0
+    subst hall
+    obtain ⟨s1, s2, s3, s4⟩ := detachConv_table X name c choice tX hx hs hb (topo_of_akeep hs0 hak htopo)
+    have hak' : ∀ n, AKeep n T0 (detachConv X name c choice).tags :=
+      fun n => (hak n).trans (detachConv_afr X name c choice n trivial)
+    have hsrc' := detachConv_src X c choice tX hx hsrc
+    obtain ⟨f1, f2⟩ := ih (detachConv X name c choice) (detachConv_fr X name c choice).all s1 s2 hak' hsrc'
+    refine ⟨fun hg => f1 (s3 hg), ?_⟩
+    rintro ⟨c', hc', h0⟩
+    rcases List.mem_cons.mp hc' with rfl | hc'
+    · exact f1 (s4 (dcOthers_nil X c' tX hsrc h0) (payload_akeep hak hp))
+    · exact f2 ⟨c', hc', h0⟩
+
+theorem attachConv_ke (n : String) (s : St) (m c : String) : KE n s (attachConv s m c).1 := by
+  unfold attachConv
+  split
+  · exact KE.refl _ _
+  · rename_i t ht
+    split
+    · exact KE.refl _ _
+    · split
+      · exact KE.refl _ _
+      · exact keepR_sins_rel AE.refl ht (t' := { t with convs := t.convs ++ [c] })
+          (by exact ⟨rfl, rfl, rfl, rfl, rfl, rfl, rfl, rfl⟩) n
+
+/-- after an event that dropped converter output, the table is closed under the propagation rules and every
+    payload tag is pending for every stream -/
+theorem dropped_table (s : St) (e : Ev) (st : Started)
+    (he : (∃ name convs, e = .updConv name convs) ∨ (∃ name, e = .delTag name))
+    (hok : (step s e st).2 = Res.ok) (hd : DropsOutput s e)
+    (hp : ∃ n t, sget s.tags n = some t ∧ Payload t)
+    (hw : Sorted s.tags) (hb : ∀ n t, sget s.tags n = some t → ∀ id, id ∈ t.unc → id < s.all)
+    (ht : Pk.Proofs.MgrTermination.Topo s.tags) :
+    (∀ n t', sget (step s e st).1.tags n = some t' → Closed s.all (step s e st).1.tags t') ∧
+    (∀ n t', sget (step s e st).1.tags n = some t' → Payload t' → ∀ id, id < s.all → id ∈ t'.unc) := by
+  show DGood s.all (step s e st).1.tags
+  obtain ⟨c, hc, h0⟩ := hd
+  rcases he with ⟨name, convs, rfl⟩ | ⟨name, rfl⟩
+  · revert hok
+    rw [step_updConv_eq]
+    simp only [detached, evName] at hc h0
+    split
+    · intro h; cases h
+    · rename_i t hg
+      rw [hg] at hc
+      split
+      · intro h; cases h
+      · intro _
+        obtain ⟨_, f2⟩ := detachFold_table name st.tag s.tags s.all hw ht ⟨t, hg⟩ hp
+          (t.convs.filter (fun c => !convs.contains c)) s rfl hw hb (fun n => AKeep.refl _ _) (Src.refl _ _)
+        refine good_sub (f2 ⟨c, hc, h0⟩) (sub_of_ke fun n => ?_)
+        show KE n (ucDetach s name t convs st.tag) (startConverter (ucAttach (ucDetach s name t convs st.tag) name convs))
+        unfold ucAttach
+        exact (foldl_ke n _ (fun s c => attachConv_ke n s name c) _ _).trans (KE.of_same (startConverter_same _))
+  · revert hok
+    rw [step_delTag_eq]
+    simp only [detached, evName] at hc h0
+    split
+    · intro h; cases h
+    · rename_i t hg
+      rw [hg] at hc
+      split
+      · intro h; cases h
+      · intro _
+        obtain ⟨_, f2⟩ := detachFold_table name st.tag s.tags s.all hw ht ⟨t, hg⟩ hp
+          t.convs s rfl hw hb (fun n => AKeep.refl _ _) (Src.refl _ _)
+        refine good_sub (f2 ⟨c, hc, h0⟩) ?_
+        show Sub _ (dtApply s name t st.tag).tags
+        unfold dtApply
+        exact (sub_sdel _ name).trans
+          (sub_of_ke fun n => foldl_ke n _ (fun s r => delRefBy_ke n s r name) t.refs
+            { (t.convs.foldl (fun s c => detachConv s name c st.tag) s) with
+              tags := sdel (t.convs.foldl (fun s c => detachConv s name c st.tag) s).tags name })
+
+end dropped
 
 end Pk.Proofs.MgrTruth
